@@ -47,7 +47,7 @@ def commit_jobs(tier, prop, only=None):
 
 def post_jobs(tier, prop):
     js = []
-    for nlp, newn, pos in ([(1, 2, 0), (1, 2, 1), (2, 1, 2), (1, 1, 0), (2, 1, 0), (0, 1, 0)] if tier == 'quick' else [(a, b, c) for a in (0, 1, 2, 3) for b in (1, 2) for c in range(a + 1)]):
+    for nlp, newn, pos in ([(1, 2, 0), (1, 2, 1), (2, 1, 2), (1, 1, 0), (2, 1, 0), (0, 1, 0)] if tier == 'quick' else [(a, b, c) for a in (0, 1, 2, 3) for b in (1, 2) for c in range(a + 1) if not (a == 0 and b == 2) and a + b <= 4]):   # beyond one allocation granule of the verification-only queue size the harness does not follow the reallocation
         js.append(Job('%s/ncmpio_igetput_varm/iput/pending%d_records%d_at%d' % (prop, nlp, newn, pos), prop,
                       ['src/drivers/common/utils.c', 'src/drivers/common/convert_swap.m4', 'src/drivers/common/create_imaptype.c', 'src/drivers/common/error_mpi2nc.c', 'src/drivers/common/ncx.m4'],
                       'C02_igetput.c', enforce='ncmpio_igetput_varm', replace=['ncmpio_pack_xbuf'] + (['ncmpio_add_record_requests'] if newn > 1 else []), include_tus={'TU_i_getput_c': 'src/drivers/ncmpio/ncmpio_i_getput.m4'},
